@@ -292,7 +292,7 @@ class Rejection(Sampler):
         sort_mask = np.argsort(sort_distance)
 
         # Update state
-        self.state['samples'][self.discrepancy_name] = sort_distance
+        self.state['samples'][self.discrepancy_name] = sort_distance[sort_mask]
         for k in self.state['samples'].keys():
             if k != self.discrepancy_name:
                 self.state['samples'][k][:nums] = self.state['samples'][k][sort_mask]
